@@ -20,6 +20,7 @@
 //   (F) the upstream header has at most one Content-Length, never Content-Length and Transfer-Encoding together,
 //       Transfer-Encoding only as a single "chunked"; it is chunked iff the reference says chunked, and otherwise its
 //       Content-Length (absent = 0) is the reference length
+//   (R) a bare CR inside a Content-Length/Transfer-Encoding field line => the request is rejected (asserted in every case)
 //   (A) guard: a block whose framing fields are plainly written (single line, no CR/NUL, one 1*DIGIT value or "chunked") is accepted
 #include "C04_fwd.h"
 #include "http/one/RequestParser.h"
@@ -34,6 +35,8 @@
 
 struct RefFr {
     bool reject, chunked, plain;
+    bool crInFraming;   // a bare CR (not the CR of the line's CRLF) inside a Content-Length / Transfer-Encoding field line
+    bool emptyClList;   // no Transfer-Encoding, and the Content-Length field(s) hold nothing but empty list elements ("Content-Length: ,")
     uint64_t len;
 };
 
@@ -63,19 +66,21 @@ static bool refDecimal(const uint8_t *w, unsigned a, const unsigned b, uint64_t 
 
 static RefFr refFraming(const uint8_t *in, const unsigned n)
 {
-    RefFr r = {false, false, true, 0};
-    static uint8_t w[MAXB];
+    RefFr r = {false, false, true, false, false, 0};
+    static uint8_t w[MAXB], wasCr[MAXB];
     unsigned m = 0;
     // normalisation: NUL -> SP, bare CR -> SP, obs-fold ([CR] LF 1*(SP/HT)) -> SP
     for (unsigned i = 0; i < n; ++i) {
         uint8_t c = in[i];
+        bool bareCr = false;
         if (c == 0) { c = ' '; r.plain = false; }
-        else if (c == '\r' && !(i + 1 < n && in[i + 1] == '\n')) { c = ' '; r.plain = false; }
+        else if (c == '\r' && !(i + 1 < n && in[i + 1] == '\n')) { c = ' '; r.plain = false; bareCr = true; }
         else if (c == '\n' && i + 1 < n && (in[i + 1] == ' ' || in[i + 1] == '\t')) {
-            if (m > 0 && w[m - 1] == '\r') --m;
+            while (m > 0 && (w[m - 1] == '\r' || wasCr[m - 1])) --m;   // CRs in front of a fold's LF belong to the fold (Http1::Parser::unfoldMime())
             while (i + 1 < n && (in[i + 1] == ' ' || in[i + 1] == '\t')) ++i;
             c = ' '; r.plain = false;
         }
+        wasCr[m] = bareCr;
         w[m++] = c;
     }
     unsigned nCl = 0, nTe = 0, teCodings = 0;
@@ -98,6 +103,7 @@ static RefFr refFraming(const uint8_t *in, const unsigned n)
             const bool isCl = refIsName(w + ls, c - ls, "Content-Length"), isTe = refIsName(w + ls, c - ls, "Transfer-Encoding");
             if (isCl || isTe) {
                 if (isCl) ++nCl; else ++nTe;
+                for (unsigned i = ls; i < ce; ++i) if (wasCr[i]) r.crInFraming = true;
                 bool list = false;
                 for (unsigned i = vs; i < ve; ++i) if (w[i] == ',') list = true;
                 if (list) r.plain = false;
@@ -132,6 +138,7 @@ static RefFr refFraming(const uint8_t *in, const unsigned n)
     } else if (nCl) {
         if (clOk && haveCl) r.len = clValue;
         else r.reject = true;
+        r.emptyClList = clOk && !haveCl;
     }
     return r;
 }
@@ -161,7 +168,7 @@ static uint64_t outDecimal(const HttpHeaderEntry *e, bool &ok)
     return v;
 }
 
-static void check(const char *headers, const int relaxed)
+static void check(const char *headers, const int relaxed, const bool onlyCandidateClass = false)
 {
     fwdConfig(relaxed);
     Config.maxRequestHeaderSize = 65536;
@@ -170,6 +177,16 @@ static void check(const char *headers, const int relaxed)
     const unsigned hs = n;
     n = put(msg, n, headers);
     n = put(msg, n, "\r\n");
+    const unsigned he = n;                                  // the header block ends here: what follows belongs to the body or the next message
+    n = put(msg, n, "GET /next HTTP/1.1\r\n\r\n");
+
+    const RefFr ref = refFraming(msg + hs, he - hs);
+    // KNOWN-FINDING candidate: with relaxed_header_parser on, a Content-Length field whose value consists only of empty list elements
+    // ("Content-Length: ," / ",," / ", ,") is not an error: ContentLengthInterpreter::checkList() finds no item, sets needsSanitizing
+    // without sawBad, HttpHeader::parse() then deletes the field, and the request is accepted and forwarded as one WITHOUT a body
+    // (what follows the header is taken as the next pipelined request). RFC 9110 8.6 / RFC 9112 6.3 #4: a Content-Length without a
+    // valid decimal is invalid framing, an unrecoverable error. Found by entry c03_value (relaxed=1, value ",,").
+    vf_assume((relaxed != 0 && ref.emptyClList) == onlyCandidateClass);
 
     // client side
     Http1::RequestParser hp;
@@ -178,6 +195,7 @@ static void check(const char *headers, const int relaxed)
     int64_t bodyLen = 0;
     HttpRequest *req = nullptr;
     if (parsedOk) {
+        vf_assert(hp.remaining().length() == n - he, "the request head ends at the first empty line: later bytes are not part of it");
         req = rawRequest(hp.method().id());
         req->http_ver = hp.messageProtocol();
         if (req->parseHeader(hp) && req->checkEntityFraming() == Http::scNone) {
@@ -188,7 +206,8 @@ static void check(const char *headers, const int relaxed)
     }
     vf_observe("accepted", accepted); vf_observe("chunked", chunked); vf_observe("bodyLen", (uint64_t)bodyLen);
 
-    const RefFr ref = refFraming(msg + hs, n - hs);
+    // (R) the sanitation HttpHeader::parse() promises on top of the RFC minimum (same assertion as C25 makes on parse() alone)
+    if (ref.crInFraming) vf_assert(!accepted, "a request with a bare CR inside Content-Length/Transfer-Encoding is rejected");
     if (!accepted) {
         if (ref.plain && !ref.reject) vf_assert(false, "guard: a request with plainly written framing fields is accepted");
         vf_reach("rejected");
@@ -240,24 +259,26 @@ static int relaxedSetting()
 #define D "\x04"
 static const char *const Families[] = {
     // 0 duplicate / conflicting / list Content-Length
-    "Host: h\r\nContent-Length: 1" B "\r\nContent-Length: 1" B "\r\n",
+    T("Host: h\r\nContent-Length: 1" B "\r\nContent-Length: 1" B "\r\n", "Host: h\r\nContent-Length:" B "1" B "\r\nContent-Length: 1" B B "\r\n"),
     // 1 Transfer-Encoding variants next to a Content-Length
-    "Content-Length: 5\r\nTransfer-Encoding:" B "chunked" B "\r\nHost: h\r\n",
+    T("Content-Length: 5\r\nTransfer-Encoding:" B "chunked" B "\r\nHost: h\r\n", "Content-Length: 5\r\nTransfer-Encoding:" B "chunke" B B "\r\nHost: h\r\n"),
     // 2 the bytes between a framing field name and its value: whitespace before the colon, longer names, missing colon
-    "Host: h\r\nTransfer-Encoding" B B "chunked\r\nContent-Length: 5\r\n",
+    "Host: h\r\nTransfer-Encoding" B B T("", B) "chunked\r\nContent-Length: 5\r\n",
     // 3 obs-fold / new line after a framing field (the byte starting the next line), and a byte inside the continuation
-    "Host: h\r\nContent-Length: 5\r\n" B B "7\r\n",
+    "Host: h\r\nContent-Length: 5\r\n" B B T("7", B) "\r\n",
     // 4 folded Transfer-Encoding value
     "Transfer-Encoding:" B "\r\n" B "chunked\r\nContent-Length: 5\r\n",
     // 5 line end of a framing field: bare CR, CR CR LF, NUL, trailing whitespace, garbage
-    "Host: h\r\nContent-Length: 5" B B "\nX: y\r\n",
+    "Host: h\r\nContent-Length: 5" B B T("", B) "\nX: y\r\n",
     // 6 case-insensitive recognition of a second, conflicting Content-Length
     "Content-Length: 5\r\n" "\x02" "ontent-lengt" "\x02" ": 6\r\n",
     // 7 Connection naming a framing field cannot remove or smuggle it
     "Connection: " B "ontent-length, transfer-encoding\r\nContent-Length: 1" D "\r\n",
-    // 8 duplicate Transfer-Encoding
-    "Transfer-Encoding: chunked\r\nTransfer-Encoding:" B B "\r\n",
-    // 9 Content-Length value: anything
+    // 8 the same with a chunked body
+    "Connection: content-length, " B "ransfer-encoding\r\nTransfer-Encoding: chunked\r\nContent-Length: 1" D "\r\n",
+    // 9 duplicate Transfer-Encoding
+    "Transfer-Encoding: chunked\r\nTransfer-Encoding:" B B T("", B) "\r\n",
+    // 10 Content-Length value: anything
     "Content-Length:" B B T("", B) "\r\n",
 };
 static void family(const unsigned first, const unsigned count)
@@ -265,10 +286,12 @@ static void family(const unsigned first, const unsigned count)
     const int relaxed = relaxedSetting();
     check(Families[first + (unsigned)vf_concretize(vf_range(0, count - 1, "family"))], relaxed);
 }
+// not in a tier: examines ONLY the class excluded above (expected to report a violation; for triage of the KNOWN-FINDING candidate)
+extern "C" void c03_candidate_empty_cl_list(void) { check(Families[10], 1, true); }
 extern "C" void c03_length(void) { family(0, 1); }
 extern "C" void c03_te(void) { family(1, 2); }
 extern "C" void c03_fold(void) { family(3, 2); }
 extern "C" void c03_eol(void) { family(5, 1); }
-extern "C" void c03_names(void) { family(6, 2); }
-extern "C" void c03_te_dup(void) { family(8, 1); }
-extern "C" void c03_value(void) { family(9, 1); }
+extern "C" void c03_names(void) { family(6, 3); }
+extern "C" void c03_te_dup(void) { family(9, 1); }
+extern "C" void c03_value(void) { family(10, 1); }
